@@ -40,6 +40,7 @@ class SrcInfo:
         self.enum_by_name = {}
         self.drop_types = set()
         self.structs = {}    # Name -> [(module, [field names])]
+        self.serde_skip = {}
         self._scan_enums()
 
     def lines(self, rel):
@@ -138,6 +139,21 @@ class SrcInfo:
                         if mm:
                             fields.append(mm.group(1))
                     self.structs.setdefault(name, []).append((mod, fields))
+                    # serde: fields that are left out of the serialised form when a predicate holds (and come back as
+                    # their Default): {struct: {field: (predicate path, field type text)}}
+                    for it in _split_items(text[start + 1:end]):
+                        sk = re.search(r'skip_serializing_if\s*=\s*"([^"]+)"', it)
+                        t = it.strip()
+                        while t.startswith('#') or t.startswith('//'):
+                            if t.startswith('//'):
+                                t = t.split('\n', 1)[1].strip() if '\n' in t else ''
+                                continue
+                            j = t.index('[')
+                            k = _match_sq(t, j)
+                            t = t[k + 1:].strip()
+                        mm = re.match(r'(?:pub(?:\([^)]*\))?\s+)?(\w+)\s*:\s*(.*)$', t, re.S)
+                        if sk and mm:
+                            self.serde_skip.setdefault(name, {})[mm.group(1)] = (sk.group(1), mm.group(2).strip())
                 for m in re.finditer(r'impl(?:<[^>]*>)?\s+Drop\s+for\s+(\w+)', text):
                     self.drop_types.add(m.group(1))
 
